@@ -376,6 +376,12 @@ func genC05(seed uint64, idx int) *Plan {
 		at := (idx / 6) % (len(p.Keys) + 1)
 		p.Keys = append(p.Keys[:at:at], append([]KeySpec{o}, p.Keys[at:]...)...)
 	}
+	if len(p.Keys) > 0 && idx%6 == 4 {
+		// the key list also holds a slot that is a zero Key (or a config cut short)
+		o := KeySpec{ID: p.Target.ID + 55, PublicName: p.Target.PublicName, Suites: append([]echbox.Suite(nil), echbox.AllSuites...), KeySeed: p.Target.KeySeed + 5151, BadConfig: true, Empty: (idx/6)%3 != 2}
+		at := (idx / 6) % (len(p.Keys) + 1)
+		p.Keys = append(p.Keys[:at:at], append([]KeySpec{o}, p.Keys[at:]...)...)
+	}
 	if idx%5 == 2 {
 		p.Interleave = 1 + (idx/5)%3
 		if p.Interleave > 1 && p.ReadBuf == 0 {
@@ -454,7 +460,7 @@ func genC02(seed uint64, idx int, tier string) *Plan {
 		// a key list with an entry whose config does not parse in front, and
 		// another usable key whose id the forged extension may name
 		other := KeySpec{ID: p.Target.ID + 9, PublicName: p.Target.PublicName, Suites: append([]echbox.Suite(nil), echbox.AllSuites...), KeySeed: p.Target.KeySeed + 77, Retry: true}
-		bad := KeySpec{ID: p.Target.ID + 3, PublicName: p.Target.PublicName, Suites: append([]echbox.Suite(nil), echbox.AllSuites...), KeySeed: p.Target.KeySeed + 78, BadConfig: true}
+		bad := KeySpec{ID: p.Target.ID + 3, PublicName: p.Target.PublicName, Suites: append([]echbox.Suite(nil), echbox.AllSuites...), KeySeed: p.Target.KeySeed + 78, BadConfig: true, Empty: idx%8 >= 6}
 		p.Keys = append([]KeySpec{bad}, append(p.Keys, other)...)
 		p.Mutations[0].B |= 1
 	}
